@@ -411,7 +411,10 @@ class AggregatedFrame(ProtocolDataUnit):
                 raise DecodeError("aggregated PDU length field error in AGF")
             if size < 2 or pdu_size > size - 2:
                 raise DecodeError("aggregated PDU exceeds the AGF PDU size")
-            agf_pdu.append(decode(data, offset+2, pdu_size))
+            try:
+                agf_pdu.append(decode(data, offset+2, pdu_size))
+            except RecursionError:
+                raise DecodeError("aggregated PDUs nested too deep in AGF")
             offset, size = offset + 2 + pdu_size, size - 2 - pdu_size
         return agf_pdu
 
